@@ -5,7 +5,7 @@ set -u
 M=$1; ID=$2; W=/tmp/mut/confirm/$ID
 rm -rf $W; git -C /repo worktree prune; git -C /repo worktree add -q --detach $W HEAD || exit 9
 cd $W
-BUILD_DEMO="g++ -std=c++17 -I include $M/demo.cpp src/*.cpp -o /tmp/mut/confirm/demo_$ID"
+BUILD_DEMO="g++ -std=c++17 -pthread -fno-access-control -I include $M/demo.cpp src/*.cpp -o /tmp/mut/confirm/demo_$ID"   # -fno-access-control: some demonstrations observe private state (e.g. the reassembly map)
 $BUILD_DEMO 2>/tmp/mut/confirm/$ID.demo0.log; ./../demo_$ID >/tmp/mut/confirm/$ID.run0.log 2>&1; RC0=$?
 git apply $M/patch.diff || { echo "$ID: PATCH DOES NOT APPLY"; exit 8; }
 cmake -G Ninja -B _build -DCMAKE_BUILD_TYPE=RelWithDebInfo >/dev/null 2>&1 && cmake --build _build >/tmp/mut/confirm/$ID.build.log 2>&1; BRC=$?
